@@ -237,7 +237,40 @@ func (p *Program) Field(short, typ, field string) *types.Var {
 			return st.Field(i)
 		}
 	}
+	// renamed? Some anchors are the only field of their type in a small struct: they are then identified by that
+	// type (confirmed by reading the declaration), so that renaming an unexported field does not unhook the rules.
+	if want, ok := anchorByType[short+"."+typ+"."+field]; ok {
+		var hit *types.Var
+		for i := 0; i < st.NumFields(); i++ {
+			if types.TypeString(st.Field(i).Type(), nil) == want {
+				if hit != nil {
+					return nil // no longer unique
+				}
+				hit = st.Field(i)
+			}
+		}
+		return hit
+	}
 	return nil
+}
+
+// anchorByType: anchor → type of the field, for fields that are the only one of that type in their struct.
+var anchorByType = map[string]string{
+	"uasc.conditionLocker.bLock":   "bool",
+	"uasc.conditionLocker.lockMu":  "sync.Mutex",
+	"uasc.conditionLocker.lockCnd": "*sync.Cond",
+}
+
+// FieldPath resolves "pkg.Type.field" (as used for mutex names) to the name the field has today.
+func (p *Program) FieldPath(path string) string {
+	parts := strings.Split(path, ".")
+	if len(parts) != 3 {
+		return path
+	}
+	if f := p.Field(parts[0], parts[1], parts[2]); f != nil {
+		return parts[0] + "." + parts[1] + "." + f.Name()
+	}
+	return path
 }
 
 // Named resolves a named type.
